@@ -75,6 +75,75 @@ def elf_dump(path):
     return ref
 
 
+def num(txt):
+    m = re.search(r"\(0x([0-9A-Fa-f]+)\)", txt)
+    if m:
+        return int(m.group(1), 16)
+    return int(txt.split()[0], 0)
+
+
+def pe_dump(path):
+    """parse llvm-readobj's text output for a PE image (its JSON style exists for ELF only)"""
+    out = subprocess.run(["llvm-readobj", "--file-headers", "--sections", path], stdout=subprocess.PIPE,
+                         stderr=subprocess.PIPE, check=True).stdout.decode()
+    ref = {"format": "pe", "coff": {}, "opt": {}, "dirs": [], "secs": []}
+    cmap = {"Machine": "Machine", "SectionCount": "NumberOfSections", "TimeDateStamp": "TimeDateStamp",
+            "PointerToSymbolTable": "PointerToSymbolTable", "SymbolCount": "NumberOfSymbols",
+            "OptionalHeaderSize": "SizeOfOptionalHeader"}
+    smap = {"VirtualSize": "VirtualSize", "VirtualAddress": "RVA", "RawDataSize": "SizeOfRawData",
+            "PointerToRawData": "PointerToRawData", "PointerToRelocations": "PointerToRelocations",
+            "PointerToLineNumbers": "PointerToLineNumbers", "RelocationCount": "NumberOfRelocations",
+            "LineNumberCount": "NumberOfLineNumbers"}
+    omap = {"NumberOfRvaAndSize": "NumberOfRvaAndSizes"}
+    ctx, sec, dirent = None, None, {}
+    for line in out.splitlines():
+        t = line.strip()
+        if t.startswith("ImageFileHeader {"):
+            ctx = "coff"
+        elif t.startswith("ImageOptionalHeader {"):
+            ctx = "opt"
+        elif t.startswith("DataDirectory {"):
+            ctx = "dirs"
+        elif t.startswith("DOSHeader {"):
+            ctx = "dos"
+        elif t.startswith("Section {"):
+            ctx, sec = "sec", {}
+        elif t.startswith("Characteristics [") and ctx in ("coff", "opt", "sec"):
+            v = num(t)
+            if ctx == "coff":
+                ref["coff"]["Characteristics"] = v
+            elif ctx == "opt":
+                ref["opt"]["DllCharacteristics"] = v
+            else:
+                sec["Characteristics"] = v
+        elif t == "}" and ctx == "sec":
+            ref["secs"].append(sec)
+            ctx = "secs"
+        elif t == "}" and ctx == "dirs":
+            ctx = "opt"
+        elif ":" in t and not t.endswith("["):
+            k, v = t.split(":", 1)
+            k, v = k.strip(), v.strip()
+            if ctx == "coff" and k in cmap:
+                ref["coff"][cmap[k]] = num(v)
+            elif ctx == "opt" and re.match(r"^(0x[0-9A-Fa-f]+|\d+)( .*)?$|.*\(0x[0-9A-Fa-f]+\)$", v):
+                ref["opt"][omap.get(k, k)] = num(v)
+            elif ctx == "dirs":
+                if k.endswith("RVA"):
+                    dirent = {"RVA": num(v)}
+                elif k.endswith("Size"):
+                    dirent["Size"] = num(v)
+                    ref["dirs"].append(dirent)
+            elif ctx == "sec":
+                if k == "Name":
+                    sec["Name"] = [int(x, 16) for x in re.search(r"\(([0-9A-Fa-f ]+)\)", v).group(1).split()]
+                elif k in smap:
+                    sec[smap[k]] = num(v)
+            elif ctx == "dos" and k == "AddressOfNewExeHeader":
+                ref["lfanew"] = num(v)
+    return ref
+
+
 def magic(path):
     with open(path, "rb") as f:
         return f.read(4)
@@ -89,13 +158,20 @@ def main():
                 files.append((os.path.relpath(p, SAMPLES), p, "samples"))
     ex = os.path.join(HERE, "extra")
     for n in sorted(os.listdir(ex)):
-        if n.endswith(".yaml"):
+        if n.endswith(".yaml") and open(os.path.join(ex, n)).read().startswith("--- !ELF"):
             out = os.path.join(ex, n[:-5] + ".elf")
             subprocess.run(["yaml2obj", os.path.join(ex, n), "-o", out], check=True)
             files.append(("extra/" + n[:-5] + ".elf", out, "extra"))
+    for rel in ("x86/puttygen.exe",):
+        files.append((rel, os.path.join(SAMPLES, rel), "samples"))
+    for n in sorted(os.listdir(ex)):
+        if n.endswith(".yaml") and open(os.path.join(ex, n)).read().startswith("--- !COFF"):
+            out = os.path.join(ex, n[:-5] + ".exe")
+            subprocess.run(["yaml2obj", os.path.join(ex, n), "-o", out], check=True)
+            files.append(("extra/" + n[:-5] + ".exe", out, "extra"))
     index = []
     for rel, p, origin in files:
-        ref = elf_dump(p)
+        ref = pe_dump(p) if magic(p)[:2] == b"MZ" else elf_dump(p)
         ref["file"] = rel
         ref["origin"] = origin
         ref["sha256"] = hashlib.sha256(open(p, "rb").read()).hexdigest()
@@ -104,7 +180,7 @@ def main():
         with open(os.path.join(HERE, name), "w") as f:
             json.dump(ref, f, indent=1, sort_keys=True)
         index.append(name)
-        print("wrote", name, len(ref["ph"]), "phdr", len(ref["sh"]), "shdr", {k: len(v) for k, v in ref["symtabs"].items()})
+        print("wrote", name, {k: (len(v) if isinstance(v, (list, dict)) else v) for k, v in ref.items() if k not in ("sha256", "tool")})
     with open(os.path.join(HERE, "INDEX.json"), "w") as f:
         json.dump(sorted(index), f, indent=1)
 
